@@ -1,1 +1,64 @@
-fn main() { println!("hi"); }
+//! `corr` — runs generated operation sequences on the real crate (in-process, hooks on) and
+//! writes a trace file: one command per line with what the implementation produced. The
+//! Lean driver replays the same file through the model and the spec.
+//!
+//! usage: corr <suite> <seed> <count> <out-file> [key=value ...]
+//!        corr replay <trace-in> <out-file>         (re-execute the commands of a trace)
+
+mod ops;
+mod rng;
+mod suites;
+mod trace;
+
+use std::any::Any;
+
+pub fn panic_msg(e: &Box<dyn Any + Send>) -> String {
+    if let Some(s) = e.downcast_ref::<&str>() {
+        s.to_string()
+    } else if let Some(s) = e.downcast_ref::<String>() {
+        s.clone()
+    } else {
+        "panic".to_string()
+    }
+}
+
+thread_local! {
+    pub static LAST_PANIC_LOC: std::cell::RefCell<String> = std::cell::RefCell::new(String::new());
+}
+
+fn main() {
+    std::panic::set_hook(Box::new(|info| {
+        let loc = info
+            .location()
+            .map(|l| format!("{}:{}", l.file(), l.line()))
+            .unwrap_or_default();
+        LAST_PANIC_LOC.with(|l| *l.borrow_mut() = loc);
+    }));
+
+    let args: Vec<String> = std::env::args().collect();
+    if args.len() < 4 {
+        eprintln!("usage: corr <suite> <seed> <count> <out-file> [key=value ...]");
+        std::process::exit(2);
+    }
+    if args[1] == "replay" {
+        let text = std::fs::read_to_string(&args[2]).expect("read trace");
+        let mut tr = trace::Trace::new();
+        suites::replay(&text, &mut tr);
+        std::fs::write(&args[3], &tr.buf).expect("write trace");
+        println!("replayed cases={} lines={}", tr.cases, tr.lines);
+        return;
+    }
+    let suite = args[1].as_str();
+    let seed: u64 = args[2].parse().expect("seed");
+    let count: usize = args[3].parse().expect("count");
+    let out = &args[4];
+    let kv: std::collections::HashMap<String, String> = args[5..]
+        .iter()
+        .filter_map(|a| a.split_once('=').map(|(k, v)| (k.to_string(), v.to_string())))
+        .collect();
+
+    let mut tr = trace::Trace::new();
+    let stats = suites::run(suite, seed, count, &kv, &mut tr);
+    std::fs::write(out, &tr.buf).expect("write trace");
+    println!("suite={suite} seed={seed} cases={} lines={} {stats}", tr.cases, tr.lines);
+}
